@@ -570,10 +570,22 @@ def read_ret_text(loader, rcls, ret):
 
 
 # ------------------------------------------------------------------------------------------ replay
-def _real_operand(kind, src, name="x"):
+FAITHFUL_KINDS = {"Variable", "Number"} | set(irkit.BOOL_KINDS)     # operand kinds the replay builds as what they are
+
+
+def faithful(*kinds):
+    return all(k is None or k in FAITHFUL_KINDS for k in kinds)
+
+
+def _real_operand(kind, src, name="x", value=0):
     from rzilcompiler.Transformer.ValueType import ValueType
     from rzilcompiler.Transformer.Pures.Variable import Variable
     from rzilcompiler.Transformer.Pures.CompareOp import CompareOp, CompareOpType
+    if kind == "Number":
+        from rzilcompiler.Transformer.Pures.Number import Number
+        n = Number("const_1", int(value), ValueType(src[0], src[1]))
+        n.inlined = True
+        return n
     if kind in irkit.BOOL_KINDS:
         a = Variable(name + "_nz", ValueType(False, 8))
         z = Variable(name + "_z", ValueType(False, 8))
@@ -609,8 +621,10 @@ def replay_callback(a):
     from rzilcompiler.ArchEnum import ArchEnum
     kind, src, dst, ctx = a["kind"], tuple(a["src"]), tuple(a["dst"]), a["ctx"]
     mdl = a.get("model", {})
-    x = mdl.get("x", 0)
-    op = _real_operand(kind, src)
+    x = mdl.get("x", 0) or 0
+    if kind == "Number":
+        x = (mdl.get("x_lit", 0) or 0) % (1 << src[1])
+    op = _real_operand(kind, src, value=x)
     values = {("x_nz", 8): 1 if x else 0, ("x_z", 8): 0} if kind in irkit.BOOL_KINDS else {("x", src[1]): int(x)}
     try:
         if ctx == "return":
@@ -667,6 +681,8 @@ def replay_callback(a):
     except Exception as e:
         return True, f"{ctx}({kind} {tname(src)} -> {tname(dst)}) raised {type(e).__name__}: {e}"
     want = _c_value(kind, src, dst, x)
+    if got == want and not faithful(kind):
+        return "inconclusive", f"{ctx}: stand-in variable for a {kind} operand of type {tname(src)} -> {tname(dst)} agrees with C11"
     return got != want, f"{ctx}: {kind} of type {tname(src)} value {x:#x} -> {tname(dst)}: IR value {got:#x}, C11 value {want:#x}"
 
 
